@@ -6,6 +6,10 @@
   row-major raveling.  The integer-dtype clause was FALSE on the pinned tree (finding D5, repaired by a `fix:` commit).
 -/
 import VerdeModel.Lemmas.LinAlgBridge
+import VerdeModel.Props.C02
+import VerdeModel.Props.C03
+import VerdeModel.Gen.Fit
+import VerdeModel.Lemmas.TrendSum
 import VerdeModel.Lemmas.Grid
 import VerdeModel.Model.Blocks
 import Mathlib.Logic.Equiv.Defs
@@ -75,5 +79,80 @@ theorem trend_int_truncation_counterexample :
   constructor
   · decide +kernel
   · decide +kernel
+
+/-! ## About the source as it is now (Gen/LeastSquares.lean, Gen/Fit.lean, Gen/Trend.lean) -/
+
+/-- **Point order, about the regenerated `least_squares`:** reordering the rows of the Jacobian together with their data and weights by any
+    permutation leaves the set of parameter vectors that satisfy the specification unchanged (the column scales are those of the same columns). -/
+theorem src_least_squares_perm_invariant {K : Type} [Field K] [LinearOrder K] [IsStrictOrderedRing K] {m n : ℕ}
+    (J : Fin m → Fin n → K) (d w : Fin m → K) (damping : Option K) (scale p : Fin n → K) (σ : Equiv.Perm (Fin m)) :
+    Gen.leastSquaresSpec (fun i => J (σ i)) (fun i => d (σ i)) (fun i => w (σ i)) damping scale p ↔ Gen.leastSquaresSpec J d w damping scale p := by
+  unfold Gen.leastSquaresSpec
+  constructor
+  · rintro ⟨c, h, hp⟩
+    exact ⟨c, (ls_perm_invariant (fun i j => J i j / scale j) w d _ _ c σ).mp h, hp⟩
+  · rintro ⟨c, h, hp⟩
+    exact ⟨c, (ls_perm_invariant (fun i j => J i j / scale j) w d _ _ c σ).mpr h, hp⟩
+
+/-- **Linearity in the data, about the regenerated `least_squares`:** if `p₁` is what it may return for `d₁` and `p₂` for `d₂`, then
+    `a p₁ + b p₂` is what it may return for `a d₁ + b d₂` (same Jacobian, weights, damping and column scales). -/
+theorem src_least_squares_linear_in_data {K : Type} [Field K] [LinearOrder K] [IsStrictOrderedRing K] {m n : ℕ}
+    (J : Fin m → Fin n → K) (d₁ d₂ w : Fin m → K) (damping : Option K) (scale p₁ p₂ : Fin n → K) (a b : K)
+    (h₁ : Gen.leastSquaresSpec J d₁ w damping scale p₁) (h₂ : Gen.leastSquaresSpec J d₂ w damping scale p₂) :
+    Gen.leastSquaresSpec J (fun i => a * d₁ i + b * d₂ i) w damping scale (fun k => a * p₁ k + b * p₂ k) := by
+  obtain ⟨c₁, hc₁, rfl⟩ := h₁
+  obtain ⟨c₂, hc₂, rfl⟩ := h₂
+  refine ⟨fun k => a * c₁ k + b * c₂ k, LS.normalEq_linear _ w d₁ d₂ _ a b _ c₁ c₂ hc₁ hc₂, ?_⟩
+  funext j
+  ring
+/-- **`fit(a·d₁ + b·d₂) = a·fit(d₁) + b·fit(d₂)` about the regenerated `least_squares`, at every query row:** with non-zero column scales and
+    an injective (damped) normal matrix the specification has one solution, so whatever it returns for the combined data predicts, at any row
+    `r`, the same combination of what it returns for `d₁` and `d₂`. -/
+theorem src_least_squares_fit_linear {K : Type} [Field K] [LinearOrder K] [IsStrictOrderedRing K] {m n : ℕ}
+    (J : Fin m → Fin n → K) (d₁ d₂ w : Fin m → K) (damping : Option K) (scale p₁ p₂ q : Fin n → K) (a b : K)
+    (hs : ∀ j, scale j ≠ 0) (hinj : LS.Injective' J w (damping.getD 0) (fun j => scale j ^ 2))
+    (h₁ : Gen.leastSquaresSpec J d₁ w damping scale p₁) (h₂ : Gen.leastSquaresSpec J d₂ w damping scale p₂)
+    (hq : Gen.leastSquaresSpec J (fun i => a * d₁ i + b * d₂ i) w damping scale q) (r : Fin n → K) :
+    (∑ k, r k * q k) = a * (∑ k, r k * p₁ k) + b * (∑ k, r k * p₂ k) :=
+  ls_linear_in_data J w d₁ d₂ _ a b _ p₁ p₂ q hinj
+    (C02.gen_least_squares_spec_solves_model J d₁ w damping scale p₁ hs h₁)
+    (C02.gen_least_squares_spec_solves_model J d₂ w damping scale p₂ hs h₂)
+    (C02.gen_least_squares_spec_solves_model J _ w damping scale q hs hq) r
+
+theorem vecOf_lin (d₁ d₂ : List Rat) (a b : Rat) (m : Nat) (hl : d₁.length = d₂.length) :
+    Gen.vecOf (List.zipWith (fun x y => a * x + b * y) d₁ d₂) m = fun i => a * Gen.vecOf d₁ m i + b * Gen.vecOf d₂ m i := by
+  funext i
+  simp only [Gen.vecOf, List.getD_eq_getElem?_getD, List.getElem?_zipWith]
+  by_cases h : i.val < d₁.length
+  · have h2 : i.val < d₂.length := by omega
+    simp [List.getElem?_eq_getElem h, List.getElem?_eq_getElem h2]
+  · have h2 : ¬ i.val < d₂.length := by omega
+    simp [List.getElem?_eq_none (Nat.le_of_not_lt h), List.getElem?_eq_none (Nat.le_of_not_lt h2)]
+
+/-- **The whole Trend pipeline is linear in the data — about the source as it is now.**  `coef₁`, `coef₂`, `coef` are what the regenerated
+    `Trend.fit` (through the regenerated `jacobian` and `least_squares`) leaves in `coef_` for the data `d₁`, `d₂` and `a·d₁ + b·d₂` on the same
+    points and weights; if the (weighted) monomial matrix is injective, the regenerated `Trend.predict` satisfies
+    `predict(a·d₁ + b·d₂) = a·predict(d₁) + b·predict(d₂)` at EVERY location. -/
+theorem src_trend_linear_in_data (degree : Nat) (es ns d₁ d₂ c₁ c₂ c : List Rat) (w : Option (List Rat)) (a b : Rat)
+    (scale : Fin (powerCombinations degree).length → Rat) (hs : ∀ j, scale j ≠ 0) (hl : d₁.length = d₂.length)
+    (hinj : LS.Injective' (Gen.matOf (Gen.trendJacobian es ns (powerCombinations degree)) (powerCombinations degree).length)
+      (Gen.weightsOf w _) 0 (fun j => scale j ^ 2))
+    (h₁ : Gen.trendFitSpec degree [es, ns] d₁ w scale c₁) (h₂ : Gen.trendFitSpec degree [es, ns] d₂ w scale c₂)
+    (hq : Gen.trendFitSpec degree [es, ns] (List.zipWith (fun x y => a * x + b * y) d₁ d₂) w scale c) (e n : Rat) :
+    Gen.trendPredict c (powerCombinations degree) [e] [n]
+      = List.zipWith (fun x y => a * x + b * y) (Gen.trendPredict c₁ (powerCombinations degree) [e] [n]) (Gen.trendPredict c₂ (powerCombinations degree) [e] [n]) := by
+  have h₁' : Gen.leastSquaresSpec (Gen.matOf (Gen.trendJacobian es ns (powerCombinations degree)) (powerCombinations degree).length)
+      (Gen.vecOf d₁ _) (Gen.weightsOf w _) none scale (Gen.vecOf c₁ _) := h₁
+  have h₂' : Gen.leastSquaresSpec (Gen.matOf (Gen.trendJacobian es ns (powerCombinations degree)) (powerCombinations degree).length)
+      (Gen.vecOf d₂ _) (Gen.weightsOf w _) none scale (Gen.vecOf c₂ _) := h₂
+  have hq' : Gen.leastSquaresSpec (Gen.matOf (Gen.trendJacobian es ns (powerCombinations degree)) (powerCombinations degree).length)
+      (Gen.vecOf (List.zipWith (fun x y => a * x + b * y) d₁ d₂) _) (Gen.weightsOf w _) none scale (Gen.vecOf c _) := hq
+  rw [vecOf_lin d₁ d₂ a b _ hl] at hq'
+  have key := src_least_squares_fit_linear _ _ _ _ none scale _ _ _ a b hs hinj h₁' h₂' hq'
+    (fun k => e ^ ((powerCombinations degree)[k]).1 * n ^ ((powerCombinations degree)[k]).2)
+  rw [C03.gen_trend_predict_eq_model, C03.gen_trend_predict_eq_model, C03.gen_trend_predict_eq_model]
+  simp only [List.zipWith_cons_cons, List.zipWith_nil_right, C01.trendPredict_eq_finsum]
+  simp only [Gen.vecOf] at key
+  rw [key]
 
 end Verde.C04
